@@ -23,10 +23,31 @@ PRUNE = [
     H("H_C04_prune_perm", "Permutation of 3 elements (unbiased rejection loop) on 8/10 symbolic words -> prune -> replay", reach=["valid", "invalid", "pruned-something"], quick=Q, thorough=T),
 ]
 
+PERSIST_ASSUME = ENGINE_ASSUME + ["package os replaced by an in-memory file system (POSIX rename atomicity, one directory tree, no concurrent writer); every call is a crash point, a write may crash leaving no / one byte / half / all but one byte",
+                                 "fmt/strconv: formatting a symbolic word and parsing the resulting text are inverse",
+                                 "strings are concrete: file contents and test names are representatives chosen by case split, not arbitrary bytes",
+                                 "jsf64 with a symbolic seed abstracted to an arbitrary word sequence determined by the seed expression"]
+
 PROPS = {
+    "C16": {
+        "level": "model_checking",
+        "harnesses": [
+            H("H_C16_crash", "real saveFailFile on the in-memory file system, killed in front of every file-system step (mkdir x3, create-temp, each write, close, rename) and inside every write (4 prefix splits); output 0..2 lines, <=2 symbolic words, symbolic seed, directory pre-existing or not, 3/11 test names; compared with the uninterrupted save", reach=["crashed", "temp-visible"], native=False, quick=Q, thorough=T),
+        ],
+        "assumptions": PERSIST_ASSUME + ["a kill runs no deferred call; durability after power loss (fsync) is not claimed by the property"],
+    },
+    "C17": {
+        "level": "model_checking",
+        "harnesses": [
+            H("H_C17_loadTotal", "real loadFailFile and checkFailFile on 15 malformed/unusable file shapes (empty, comments only, binary garbage, bad seed, extra '#', other version, now-passing, now-invalid, number overflow, truncated, missing version, negative seed, unreadable)", reach=["error", "loaded"], native=False, quick=Q, thorough=T),
+            H("H_C17_ignored", "real doCheck (checks=2, symbolic seed, shrinktime 0) with 1 (quick) / 1..2 (thorough) unusable files of the 15 shapes present vs. an empty directory: verdict tuple and the sequence of random test cases compared", reach=["compared"], native=False, quick=Q, thorough=T),
+        ],
+        "assumptions": PERSIST_ASSUME,
+    },
     "C06": {
         "level": "model_checking",
         "harnesses": [
+            H("H_C06_rerun", "two-run history on the in-memory file system: real checkTB (checks=1, shrinktime 0, -rapid.nofailfile both ways, 3 (quick) / 11 (thorough) test names incl. unicode, separators, glob metacharacters, reserved names) with a data-dependent property on a symbolic PRNG word, then a second checkTB on the resulting file system", reach=["run1-failed", "run1-not-failed", "nofailfile"], native=False, quick=Q, thorough=T),
             H("H_C06_roundtrip", "real saveFailFile -> loadFailFile over the in-memory file system (real bufio.Scanner code executed); seed and <=2 bitstream words symbolic 64-bit; captured output = 0..2 (quick) / 0..3 (thorough) lines chosen by the solver from 10 representative lines (lengths 0,1,..,65533,65534,65535,70000; comment-like, data-like, version-like, blank, CR contents), with/without trailing newline", reach=["loaded"], quick=Q, thorough=T),
         ],
         "assumptions": ENGINE_ASSUME + ["package os replaced by an in-memory file system (POSIX rename atomicity, one directory tree, no concurrent writer)",
@@ -68,6 +89,7 @@ PROPS = {
         "level": "model_checking",
         "harnesses": [
             H("H_C09_findBug", "real findBug, N in -1..2 (quick) / -1..3 (thorough), every pass/skip/fail outcome sequence (solver-chosen per invocation), deadline far away", reach=["failed", "no-failure", "enough", "budget"], quick=Q, thorough=T),
+            H("H_C09_failfileFlaky", "real checkTB with a valid fail file present and a property whose outcome per invocation is chosen by the solver (so also 'fails on replay, passes on reproduction')", reach=["falsified", "failfile-falsified"], native=False, quick=Q, thorough=T),
             H("H_C09_verdict", "real checkTB with -rapid.checks in 1..2, -rapid.nofailfile, shrinktime 0, every outcome sequence", reach=["falsified", "passed", "only-generated"], quick=Q, thorough=T),
         ],
         "assumptions": ENGINE_ASSUME + ["clock: time.Now non-decreasing ticks, time.Until(deadline) large (the early-exit branch is not taken)", "filepath.Glob finds no fail files (C06/C17 cover them)"],
